@@ -22,7 +22,7 @@ RULE = (
     "fault sets = subsets of the R + R*P evaluations (realization r unperturbed | perturbation p of r) of one "
     "function+gradient request that return NaN. Exhaustive over all subsets for R,P<=2 (quick) and R,P<=3 (thorough) x "
     "realization_min_success 0..R x perturbation_min_success 1..P x NaN column (objective | first constraint | second constraint) x estimator "
-    "(mean|stddev) x filter (none|sort|cvar) x evaluation path (combined|split); Hypothesis-sampled for R<=6, P<=8. "
+    "(mean|stddev) x filter (none|sort|cvar) x evaluation path (combined|split) (+ merged-realization estimation for mean/no filter); Hypothesis-sampled for R<=6, P<=8. "
     "Oracle: flag/gate predicates + differential run of the same code on the reduced ensemble (failed realizations "
     "deleted, weights restricted) + exact affine gradient; plus a real SLSQP run per fault set for the exit code. "
     "Non-trivial: >=1 failure and >=1 surviving realization with positive weight."
@@ -65,7 +65,7 @@ def make(case: dict[str, Any], keep: list[int] | None = None) -> tuple[EnOptConf
         "objectives": {"weights": [1.0] * k_n},
         "nonlinear_constraints": {"lower_bounds": [0.0] * c_n, "upper_bounds": [np.inf] * c_n},
         "gradient": {"number_of_perturbations": p_n, "perturbation_min_success": case["pmin"],
-                     "perturbation_magnitudes": 0.01, "boundary_types": 1},
+                     "perturbation_magnitudes": 0.01, "boundary_types": 1, "merge_realizations": bool(case.get("merge"))},
         "function_estimators": [{"method": case["estimator"]}],
         "samplers": [{"method": "design/fixed"}],
     }
@@ -172,7 +172,7 @@ def run_case(case: dict[str, Any]) -> dict[str, Any]:  # noqa: C901, PLR0912, PL
                       f"gradient with failures {np.asarray(gres.gradients.objectives).tolist()} != reduced ensemble "
                       f"{np.asarray(rg.objectives).tolist()}", case)
         # exact affine gradient (mean, no filter) when the surviving perturbations determine it
-        if case["estimator"] == "mean" and case["filter"] == "none":
+        if case["estimator"] == "mean" and case["filter"] == "none" and not case.get("merge"):
             d = design(r_n, p_n, n) * 0.01
             w = np.where(g_failed, 0.0, weights)
             w = w / w.sum()
@@ -270,6 +270,16 @@ def exhaustive_shard(item: dict[str, Any]) -> Collector:
             guard_call(col, case, go)
             nontrivial, classes = classify(case, info)
             col.case((r_n, p_n, mask, rmin, pmin, nan_col, est, flt, split), nontrivial=nontrivial, classes=classes, sample=case)
+            if est == "mean" and flt == "none" and nan_col == 0:  # merged-realization estimation of the same fault set
+                mcase = {**case, "merge": True}
+                minfo: dict[str, Any] = {"compared": 0, "aborted": False}
+
+                def gom(mcase: dict[str, Any] = mcase, minfo: dict[str, Any] = minfo) -> None:
+                    minfo.update(run_case(mcase))
+
+                guard_call(col, mcase, gom)
+                nontrivial, classes = classify(mcase, minfo)
+                col.case((r_n, p_n, mask, rmin, pmin, "merge", split), nontrivial=nontrivial, classes=(*classes, "merged"), sample=mcase)
         # (d) one real optimizer run per fault set and threshold pair
         if item.get("runs"):
             for rmin, pmin in itertools.product(range(r_n + 1), range(1, p_n + 1)):
@@ -303,7 +313,8 @@ def hypothesis_shard(item: dict[str, Any]) -> Collector:
                           "rmin": draw(st.integers(0, r_n)), "pmin": draw(st.integers(1, p_n)),
                           "nan_col": draw(st.integers(0, k_n + c_n - 1)), "estimator": est,
                           "filter": draw(st.sampled_from(["none", "none", "sort", "cvar"])) if r_n > 1 else "none",
-                          "split": draw(st.booleans()), "weights": weights})
+                          "split": draw(st.booleans()), "weights": weights,
+                          "merge": est == "mean" and draw(st.integers(0, 3)) == 0})
 
     def body(case: dict[str, Any]) -> None:
         info = run_case(case)
